@@ -213,7 +213,7 @@ func (a *FsmA) ctxLeaderField() string {
 
 // applyReach: module functions reachable from Update.
 func (a *FsmA) applyReach() map[*ssa.Function]bool {
-	return a.w.Reach([]*ssa.Function{a.Update}, func(f *ssa.Function) bool { return isGenerated(f) })
+	return a.w.ReachModIfaces([]*ssa.Function{a.Update}, func(f *ssa.Function) bool { return isGenerated(f) })
 }
 
 func isFsmFunc(fn *ssa.Function) bool {
